@@ -3541,8 +3541,10 @@ public:
         insert(iterator pos, const value_type value) const noexcept
     {
         SBEPP_ASSERT(pos >= begin() && pos <= end());
+        // new size has to be representable by `size_type`
+        SBEPP_ASSERT(size() < (std::numeric_limits<size_type>::max)());
         const auto old_end = end();
-        resize(size() + 1, default_init);
+        resize(static_cast<size_type>(size() + 1), default_init);
         std::copy_backward(pos, old_end, end());
         *pos = value;
         return pos;
@@ -3554,8 +3556,11 @@ public:
         iterator pos, size_type count, const value_type value) const noexcept
     {
         SBEPP_ASSERT(pos >= begin() && pos <= end());
+        // new size has to be representable by `size_type`
+        SBEPP_ASSERT(
+            count <= ((std::numeric_limits<size_type>::max)() - size()));
         const auto old_end = end();
-        resize(size() + count, default_init);
+        resize(static_cast<size_type>(size() + count), default_init);
         std::copy_backward(pos, old_end, end());
         std::fill_n(pos, count, value);
         return pos;
@@ -3729,8 +3734,13 @@ private:
         iterator pos, It first, It last, std::forward_iterator_tag) const
     {
         const auto in_size = std::distance(first, last);
+        // new size has to be representable by `size_type`
+        SBEPP_ASSERT(
+            static_cast<std::size_t>(in_size)
+            <= static_cast<std::size_t>(
+                (std::numeric_limits<size_type>::max)() - size()));
         auto old_end = end();
-        resize(size() + in_size, default_init);
+        resize(static_cast<size_type>(size() + in_size), default_init);
         std::copy_backward(pos, old_end, end());
         std::copy(first, last, pos);
         return pos;
